@@ -183,6 +183,8 @@ def _mapping(case, secure):
     other_key = 'http' if secure else 'https'
     env = {}
     if m == 'empty':
+        # the environment names proxies, the explicit empty mapping wins
+        env = {'HTTP_PROXY': o, 'HTTPS_PROXY': o}
         return {}, env, None
     if m == 'http':
         d = {'http': p}
